@@ -137,7 +137,7 @@ func cmdRun(args []string) {
 		sum.Harness, sum.Paths, sum.Done, sum.AssumeDrops, len(sum.Violations), len(sum.Unsupported), len(sum.Inconclusive), sum.WallS)
 	fmt.Printf("  queries=%d sat=%d unsat=%d unknown=%d solver=%.1fs max=%.0fms\n", sum.Stats.Queries, sum.Stats.SatN, sum.Stats.UnsatN, sum.Stats.UnknownN,
 		float64(sum.Stats.SolverNS)/1e9, float64(sum.Stats.MaxQueryNS)/1e6)
-	fmt.Printf("  model-cache hits=%d steps=%d maxdepth=%d\n", sum.CacheHits, sum.Steps, sum.MaxDepth)
+	fmt.Printf("  model-cache hits=%d steps=%d maxdepth=%d merged-calls=%d merge-aborts=%d\n", sum.CacheHits, sum.Steps, sum.MaxDepth, sum.Merged, sum.MergeAborts)
 	fmt.Printf("  reached=%v asserts(symbolic)=%v asserts(concrete)=%v\n", sum.Reached, sum.Asserts, sum.AssertsConc)
 	if sum.RaceStats.Events > 0 {
 		fmt.Printf("  race analysis: events=%d sync=%d accesses=%d candidates=%d queries=%d sat=%d unsat=%d unknown=%d solver=%.1fs\n", sum.RaceStats.Events, sum.RaceStats.SyncEvents,
